@@ -106,7 +106,9 @@ def value_and_search(rnd, acc, case=None):
         searches = []
         for _ in range(4):
             searches.append([rdate(rnd, -15, 25), rnd.choice([1, -1]), rnd.choice([0, 1, 2, 7, 30, 400, None])])
-        case = {'kind': 'calendar', 'ast': ast, 'dates': [list(x) for x in dates], 'searches': searches}
+        # a resource is named by whatever the tasks put into their resource field: a string, None (the default resource), a number
+        case = {'kind': 'calendar', 'ast': ast, 'dates': [list(x) for x in dates], 'searches': searches,
+                'resource_name': rnd.choice(['r', 'r', None, 0, 7, ''])}
     ast = case['ast']
     shp = calast.shape(ast)
     try:
@@ -140,7 +142,7 @@ def value_and_search(rnd, acc, case=None):
         elif not any(close(got, e_) for e_ in admissible):
             acc.violation(f'C17/value/{_blame(ast, d)}/{cls}', f'{shp}.get_available_units({d}) = {got!r}, admissible {sorted(admissible, key=repr)!r}', _one(case, d, cls))
         # resource level
-        r = Resource('r', cal)
+        r = Resource(case.get('resource_name', 'r'), cal)
         try:
             u = r.get_available_units(d)
             acc.count('resource_checks')
@@ -149,7 +151,7 @@ def value_and_search(rnd, acc, case=None):
         except Exception as e:
             acc.violation(f'C17/resource-raised-{type(e).__name__}', f'Resource.get_available_units({d}) raised {e}', _one(case, d, cls))
     # search
-    r = Resource('r', cal)
+    r = Resource(case.get('resource_name', 'r'), cal)
     for d0, dirn, md in case['searches']:
         horizon = 100000 if md is None else md
         exp = None
